@@ -239,7 +239,7 @@ func mutateText(b []byte, kind, mop string, k, kmax int) ([]byte, string) {
 
 type samples struct {
 	ttf, certDER, certPEM, p7c, pkcs7, json, csv []byte
-	formPDF                                     string // path of the form the JSON/CSV data belongs to
+	formPDF                                      string // path of the form the JSON/CSV data belongs to
 }
 
 var sigContents = regexp.MustCompile(`/Contents\s*<([0-9A-Fa-f]{200,})>`)
